@@ -6,9 +6,11 @@
 
 static const u32 ILL = 0x80000000u;
 static const u32 ILL_TAIL = 0x00800000u;   // with ILL: a policy-ambiguous form, emitted only when it is the last item (UTF-8)
+static const u32 NUL_ITEM = 0x40000000u;   // an embedded U+0000 (the caller's nChars counts past it); see check_segment for the two accepted policies
 static inline bool is_ill(u32 it) { return (it & ILL) != 0; }
 static inline u32 sanitize_item(u32 it) {
     if (is_ill(it)) return it;
+    if (it == NUL_ITEM) return it;
     if (it == 0) return 0x20;
     if (it >= 0x110000) return 0xFFFD;
     if (it >= 0xD800 && it <= 0xDFFF) return 0xFFFD;
@@ -21,18 +23,20 @@ struct Encoded {
     std::vector<u32> expect_usv;       // reference decoding: one entry per character
     std::vector<size_t> expect_base;   // code-unit offset of each character
     size_t nchars = 0;
+    size_t first_nul = size_t(-1);     // index of the first embedded U+0000, if any
 };
 
 // kind of ill-formed UTF-8 item: 0 = lone continuation, 1 = lone lead, 2 = truncated 3/4-byte sequence
 static inline int ill8_kind(u32 n) { return int(n % 3); }
 
 static inline void encode_text(const std::vector<u32> &items_in, int enc, Encoded &out) {
-    out.enc = enc; out.buf.clear(); out.expect_usv.clear(); out.expect_base.clear();
+    out.enc = enc; out.buf.clear(); out.expect_usv.clear(); out.expect_base.clear(); out.first_nul = size_t(-1);
     std::vector<u32> units;
     bool prev_open = false; // previous item ended in a lead/high-surrogate that a following continuation/low would complete
     for (const u32 &raw : items_in) {
         u32 it = sanitize_item(raw);
         out.expect_base.push_back(units.size());
+        if (it == NUL_ITEM) { if (out.first_nul == size_t(-1)) out.first_nul = out.expect_usv.size(); out.expect_usv.push_back(0); units.push_back(0); prev_open = false; continue; }
         if (!is_ill(it)) {
             out.expect_usv.push_back(it);
             if (enc == 4) units.push_back(it);
